@@ -9,7 +9,7 @@ def jobs(tier):
     return [
         # (E) every (ilog, top-16-bits) class of a legal range value: 1152 blocks of 256 classes, always complete
         Job("c08_rangecoder", "flt-asan", "enumerate", workers=4, enum_stride=1, maxtime=120),
-        Job("c08_rangecoder", "flt-asan", "random", workers=W, cases=20000 if q else 200000, maxtime=45 if q else 300),
+        Job("c08_rangecoder", "flt-asan", "random", workers=W, cases=40000 if q else 200000, maxtime=40 if q else 300),
     ] + ([] if q else [Job("c08_rangecoder", "flt-fuzz", "fuzz", fuzz_jobs=8, fuzz_time=180)])
 
 
